@@ -584,7 +584,9 @@ func TestVerifC38Flood(t *testing.T) {
 	maxMsgs := 2
 	maxDev := mc.EnvInt("VERIF_C38_DEV", mc.Pick(1, 3))
 	// second message only on topologies with at most this many edges
-	twoMsgMaxEdges := mc.EnvInt("VERIF_C38_TWOMSG_EDGES", mc.Pick(3, 6))
+	twoMsgMaxEdges := mc.EnvInt("VERIF_C38_TWOMSG_EDGES", 3)
+	// two interleaved floods multiply the state space: fewer deviations there
+	twoMsgDev := mc.EnvInt("VERIF_C38_TWOMSG_DEV", mc.Pick(1, 2))
 	twoMsgMaxNodes := mc.EnvInt("VERIF_C38_TWOMSG_NODES", mc.Pick(3, 4))
 	// per delivery: 0 deliver, 1 deliver and leave a duplicate in flight, 2 drop.
 	// A drop is the same as delaying the message beyond the end of the run as far
@@ -619,7 +621,7 @@ func TestVerifC38Flood(t *testing.T) {
 	}
 	mc.Run(t, mc.Config{ID: "C38", Name: "C38-flood-netsim", MaxDev: maxDev, Params: map[string]interface{}{
 		"topologies": topoNames, "configurations": len(configs), "variants": c38Variants, "messages": fmt.Sprintf("1..%d (second one only when edges<=%d and nodes<=%d), originated at any node, the second at any point of the run", maxMsgs, twoMsgMaxEdges, twoMsgMaxNodes),
-		"per_delivery": []string{"deliver", "deliver and keep a network duplicate in flight (1 deviation)", "drop (1 deviation)"}[:fates], "max_deviations": maxDev,
+		"per_delivery": []string{"deliver", "deliver and keep a network duplicate in flight (1 deviation)", "drop (1 deviation)"}[:fates], "max_deviations": maxDev, "max_deviations_with_two_messages": twoMsgDev,
 		"delivery_order": "every order of the distinct in-flight messages"}},
 		func(x *mc.X) {
 			orig := cache
@@ -711,8 +713,11 @@ func TestVerifC38Flood(t *testing.T) {
 			}
 			// one forward per node and message = at most sum(deg) = 2|E| copies per
 			// message, plus duplicates, plus the step that originates message 2
-			maxSteps := msgs*2*len(tp.edges) + maxDev + msgs + 2
-			dropped, dups := 0, 0
+			// (the bound below is four times that: it is a safety net that turns a
+			// runaway flood into a reported violation instead of a hung check; any
+			// such flood trips node-forwarded-message-twice first)
+			maxSteps := 4*msgs*2*len(tp.edges) + maxDev + msgs + 2
+			dropped, dups, devUsed := 0, 0, 0
 			step := 0
 			for ; ; step++ {
 				// distinct in-flight messages, sorted
@@ -743,7 +748,13 @@ func TestVerifC38Flood(t *testing.T) {
 				} else {
 					mi := distinct[c]
 					m := net.inflight[mi]
-					fate := x.Deviate(fates)
+					fate := 0
+					if msgs == 1 || devUsed < twoMsgDev {
+						fate = x.Deviate(fates)
+					}
+					if fate != 0 {
+						devUsed++
+					}
 					switch fate {
 					case 0:
 						net.inflight = append(net.inflight[:mi:mi], net.inflight[mi+1:]...)
